@@ -48,12 +48,20 @@ fn describe_model(m: &Option<FibexMetadata>) -> String {
 }
 
 pub fn judge(files: &[Vec<Elem>], layouts: &[Layout], what: &str, loc: &mut Local) {
+    let names: Vec<usize> = (0..files.len()).collect();
+    judge_named(files, layouts, &names, what, loc)
+}
+
+/// `names[i]` selects the file name of the i-th listed file, so that the listing order is
+/// independent of the lexicographic order of the paths.
+pub fn judge_named(files: &[Vec<Elem>], layouts: &[Layout], names: &[usize], what: &str, loc: &mut Local) {
+    const FILE_NAMES: [&str; 4] = ["a_base", "m_vehicle", "z_last", "B_upper"];
     let dir = thread_dir();
     let mut paths = vec![];
     let mut docs = vec![];
     for (i, f) in files.iter().enumerate() {
         let doc = render_doc(f, &layouts[i % layouts.len()]);
-        let p = format!("{}/f{}.xml", dir, i);
+        let p = format!("{}/{}.xml", dir, FILE_NAMES[names[i] % FILE_NAMES.len()]);
         std::fs::write(&p, &doc).expect("write fibex file");
         paths.push(p);
         docs.push(doc);
@@ -63,6 +71,7 @@ pub fn judge(files: &[Vec<Elem>], layouts: &[Layout], what: &str, loc: &mut Loca
     loc.traces += 1;
     let expect = expected_model(files);
     let h = docs.iter().fold(0u64, |a, d| mix(a, fnv64(d.as_bytes())));
+    let h = names.iter().fold(h, |a, n| mix(a, *n as u64 + 1));
     loc.state(h, expect.as_ref().map(|m| !m.frame_map.is_empty()).unwrap_or(true));
     let details = || json!({"what": what, "files": docs, "layouts": format!("{:?}", layouts)});
     let got = match catch(|| gather_fibex_data(FibexConfig { fibex_file_paths: paths.clone() })) {
@@ -282,9 +291,11 @@ pub fn run(ctx: &Ctx) {
         ];
         let n = base.len();
         // every assignment of the elements to 3 files x two document orders (as listed / reversed)
-        let total = 3u64.pow(n as u32) * 2;
+        let total = 3u64.pow(n as u32) * 2 * 6;
         let base = &base;
-        ctx.run_family(Family::new("c11.files", total, format!("a model of {} top-level elements (coding, custom signal, 3 PDUs incl. a duplicate id, 3 FRAMEs incl. a duplicate id): ALL 3^{} assignments of the elements to three files (empty files included), loaded in file order, x {{document order as listed, reversed}}", n, n), move |i, loc| {
+        ctx.run_family(Family::new("c11.files", total, format!("a model of {} top-level elements (coding, custom signal, 3 PDUs incl. a duplicate id, 3 FRAMEs incl. a duplicate id): ALL 3^{} assignments of the elements to three files (empty files included), loaded in file order, x {{document order as listed, reversed}} x all 6 assignments of three file names to the listing positions (listing order independent of path order)", n, n), move |i, loc| {
+            let names = permutation(3, (i % 6) as usize);
+            let i = i / 6;
             let rev = i % 2 == 1;
             let mut j = i / 2;
             let mut files: Vec<Vec<Elem>> = vec![vec![], vec![], vec![]];
@@ -297,7 +308,7 @@ pub fn run(ctx: &Ctx) {
             for k in order {
                 files[assign[k]].push(base[k].clone());
             }
-            judge(&files, &[Layout::default(), Layout { indent: false, ..Layout::default() }, Layout { noise: true, ..Layout::default() }], &format!("file assignment {:?}{}", assign, if rev { ", reversed document order" } else { "" }), loc);
+            judge_named(&files, &[Layout::default(), Layout { indent: false, ..Layout::default() }, Layout { noise: true, ..Layout::default() }], &names, &format!("file assignment {:?}{}, file names by listing position {:?}", assign, if rev { ", reversed document order" } else { "" }, names), loc);
         }));
         // all 24 orders of the four sections in one file, x layouts
         let sp = Space::new(&[24, 2, 2, 2]);
